@@ -19,8 +19,8 @@ ENV = dict(os.environ, GOFLAGS="-mod=mod", GOPROXY="off", GOSUMDB="off", GOTOOLC
 ENV.pop("GOWORK", None)
 
 M = []
-def mut(id, props, file, old, new, rule="", kind="breaking", note="", sentinel=False):
-    M.append(dict(id=id, props=props, file=file, old=old, new=new, expect_rule=rule, kind=kind, note=note, sentinel=sentinel))
+def mut(id, props, file, old, new, rule="", kind="breaking", note="", sentinel=False, miss=None):
+    M.append(dict(id=id, props=props, file=file, old=old, new=new, expect_rule=rule, kind=kind, note=note, sentinel=sentinel, miss=miss or []))
 
 # ---------------- E1 dispatch / forwarding ----------------
 mut("e1-within-routes-to-intersects", ["C09", "C03"], "linestring.go",
@@ -284,6 +284,8 @@ def main():
             e = dict(id=m["id"], kind=m["kind"], props=m["props"], patch=pf, expect_rule=m["expect_rule"], note=m["note"], suite=suite)
             if m["sentinel"]:
                 e["sentinel"] = True
+            if m["miss"]:
+                e["known_miss"] = m["miss"]
             out.append(e)
             print(f"{m['id']:40s} {m['kind']:8s} suite={suite}")
     finally:
